@@ -359,6 +359,10 @@ func (s *c22Sim) deliver(to, from int, cm *ConsensusMessage, desc string, byz bo
 	s.deliv[to] = append(s.deliv[to], fmt.Sprintf("%d:%s", from, desc))
 	if byz {
 		s.byzDeliv++
+		if i := strings.Index(desc, "script-"); i >= 0 && s.p.Script != "" {
+			tag := desc[:i] + strings.SplitN(desc[i:], " ", 2)[0]
+			s.counters["delivered:"+tag]++
+		}
 	} else {
 		s.honDeliv++
 	}
@@ -1775,6 +1779,11 @@ func TestVerifC22(t *testing.T) {
 	r.Floor("deliveries_byzantine", 100)
 	for _, name := range c22ScriptNames {
 		r.Floor("script:"+name, 1)
+	}
+	// the forged messages of the corpus scenarios were really handed to a service
+	for _, tag := range []string{"commit script-exact", "commit script-dup", "commit script-garbage", "commit script-outsiders",
+		"script-garbage-sig", "script-non-authority"} {
+		r.Floor("delivered:"+tag, 1)
 	}
 
 	r.Floor("script:stop-closed-action-channel", 1)
